@@ -22,7 +22,7 @@ def app_cls(ctx):
 @rule("R19.1", ["C19"], "T-FUN", floor=100, anchor_fallback=("R19.5",))
 def r19_1(ctx):
     """_watchdog_feed over keep-alive outcomes {ok, TimeoutError, EzspError, other exception, cancellation} x the
-    failure count n in 0..MAX+3 x protocol version {4, later} x the position in the counter-clear period: a failed
+    failure count n in 0..MAX+3 x protocol version (the full grid for 4 and 8, the kind of keep-alive for every version 4..14 and a newer one) x the position in the counter-clear period: a failed
     keep-alive (timeout or EZSP error, on any of the feed's commands) makes the count n+1 and the feed raises iff
     n+1 > MAX_WATCHDOG_FAILURES; a fully successful feed sets the count to 0 and returns; any other exception
     propagates without being counted. On version 4 the keep-alive is exactly one nop; otherwise the feed counter
@@ -39,11 +39,12 @@ def r19_1(ctx):
     outs = Outcomes(OK({}), RAISE("TimeoutError"), RAISE("EzspError"), RAISE("ValueError"), RAISE("CancelledError"))
     models = [(k, outs) for k in KEEPALIVE_CALLS] + [
         ("self._get_free_buffers", Outcomes(OK(None), OK(7), RAISE("TimeoutError"), RAISE("EzspError")))]
-    for ver in (4, 8):
-        for n in range(0, MAX + 4):
-            for c in (0, 1, PERIOD - 2, PERIOD - 1, PERIOD, 2 * PERIOD - 1):
-                if ver == 4 and c not in (0, PERIOD - 1):
-                    continue
+    from ..su import VERSIONS
+
+    for ver in list(VERSIONS) + [VERSIONS[-1] + 1]:
+        # the full grid for version 4 and one later version; the kind of keep-alive for every other version (and a newer NCP)
+        for n in (range(0, MAX + 4) if ver in (4, 8) else (0,)):
+            for c in ((0, 1, PERIOD - 2, PERIOD - 1, PERIOD, 2 * PERIOD - 1) if ver == 8 else (0, PERIOD - 1)):
                 px = PX(repo, models=models, inline=same_class())
 
                 def setup():
